@@ -53,7 +53,7 @@ def run(ctx):
     rng = random.Random(ctx.seed)
     coherent = corpus.coherent_calendar_patterns()
     rejected = corpus.incoherent_calendar_patterns()
-    a, b = dt.date(2001, 1, 1).toordinal(), dt.date(2099, 12, 31).toordinal()
+    a, b = dt.date(2001, 1, 1).toordinal(), dt.date(2099, 12, 30).toordinal()          # day pairs (n, n + 1): the last pair is 30 / 31 December 2099 (two-digit years wrap in 2100)
     wa, wb = ctx.pick((dt.date(2019, 1, 1).toordinal(), dt.date(2030, 12, 31).toordinal()), (a, b))
     ny = [d.toordinal() for d in corpus.new_year_dates(4)]
     boundary = sorted(set(rng.sample(ny, ctx.pick(10, 40)) + [d.toordinal() for d in corpus.boundary_dates()[:ctx.pick(6, 30)]]))
